@@ -57,7 +57,7 @@ CLAIMED = {
              ref="DESIGN.md 4 C04"),
  "C05": dict(technique="Kani contracts on the mode of operation with process_block as contract stub (UBI step uninterpreted) + Threefish contracts (C09)",
              text="Configuration UBI block carrying N, lazy message UBI with first/final flags and byte position, single zero block for the empty message, counter-mode output blocks truncated to N bytes, for output sizes N in a stated finite set, from an arbitrary state (symbolic chaining value and position).",
-             note="process_block == one UBI step over Threefish is taken by inspection (with_tweak/encrypt_block are under contract in C09; the XOR feed-forward is 3 lines). N ranges over {1,7,8,20,32,33,64,65} x256, {1,32,64,65} x512, {1,32,64,128,129,200} x1024. Skein256/512<200> dropped: Kani false alarm on the 8-byte tail chunk, cross-checked natively (DESIGN.md 8).",
+             note="process_block == one UBI step (key = chaining value, tweak = position/flags, Threefish of the block xor the block) is proved on the real code with MIX as uninterpreted function against the same Threefish specification as C09; MIX itself by the mix contract. N ranges over {1,7,8,20,32,33,64,65} x256, {1,32,64,65} x512, {1,32,64,128,129,200} x1024. Skein256/512<200> dropped: Kani false alarm on the 8-byte tail chunk, cross-checked natively (DESIGN.md 8).",
              ref="DESIGN.md 4 C05"),
  "C06": dict(technique="Kani contracts on the mode of operation with Compressor::input as uninterpreted function + call log",
              text="Padding (one block iff block-aligned, else two), 128-bit big-endian bit length, chaining, output = tail of the 1024-bit state, byte counter exact -- for a symbolic chaining value and byte count.",
